@@ -867,10 +867,16 @@ def switch_info(prog, body, b):
                 vs = enum_variants(prog, src_ty) if src_ty else None
                 info["src"] = src_pl
                 info["src_ty"] = src_ty
+                by_discr = None
+                if not vs and payload.get("ext_variants"):
+                    # an enum of another crate (io::ErrorKind): the driver sends its variants along with the discriminant read
+                    by_discr = {d_: n_ for d_, n_ in payload["ext_variants"]}
+                    vs = [n_ for d_, n_ in payload["ext_variants"]]
+                    info["src_ty"] = src_ty or payload.get("ext_enum")
                 if vs:
                     info["kind"] = "enum"
                     used = set()
-                    by_discr = enum_discriminants(prog, src_ty)
+                    by_discr = by_discr if by_discr is not None else enum_discriminants(prog, src_ty)
                     for v, tgt in t["targets"]:
                         if by_discr is not None:
                             if v in by_discr:
